@@ -420,11 +420,23 @@ func toSyntaxAt(f []*sn, top bool) []*yn {
 	return out
 }
 
-func (y *yn) render(b *strings.Builder, ind string) {
+func (y *yn) render(b *strings.Builder, ind string) { y.renderIn(b, ind, "m", false) }
+
+// renderIn: own is the prefix the (sub)module being written binds to the module itself; qualify spells the steps of module-level
+// augment paths with that prefix.
+// c01impPrefix: the prefix the (sub)module being written gives the imported module imp
+var c01impPrefix = "imp"
+
+func (y *yn) renderIn(b *strings.Builder, ind string, own string, qualify bool) {
 	arg := y.arg
 	if y.kw == "uses" && y.own && !strings.Contains(arg, ":") {
-		// main module and submodule both bind "m" to the module itself
-		arg = "m:" + arg
+		arg = own + ":" + arg
+	}
+	if y.kw == "uses" && strings.HasPrefix(arg, "imp:") {
+		arg = c01impPrefix + ":" + strings.TrimPrefix(arg, "imp:")
+	}
+	if y.kw == "augment" && qualify && strings.HasPrefix(arg, "\"/") {
+		arg = strings.ReplaceAll(arg, "/", "/"+own+":")
 	}
 	fmt.Fprintf(b, "%s%s %s", ind, y.kw, arg)
 	if len(y.body) == 0 && len(y.kids) == 0 {
@@ -436,7 +448,7 @@ func (y *yn) render(b *strings.Builder, ind string) {
 		b.WriteString(ind + "  " + p + "\n")
 	}
 	for _, k := range y.kids {
-		k.render(b, ind+"  ")
+		k.renderIn(b, ind+"  ", own, qualify)
 	}
 	b.WriteString(ind + "}\n")
 }
@@ -450,6 +462,7 @@ type factorizer struct {
 	r        *rand.Rand
 	top      []*yn // module body of the main module
 	sub      []*yn // submodule body
+	sub2     []*yn // body of a submodule that the submodule includes
 	imp      []*yn // imported module body (groupings only)
 	steps    map[string]bool
 	local    map[string]bool // names of groupings that are only in scope below some node
@@ -857,6 +870,25 @@ func (f *factorizer) toSubmodule() {
 	f.step("top-level-to-submodule")
 }
 
+// toSubmodule2 moves a suffix of the submodule's data nodes and groupings into a second submodule that the first one includes. What is
+// written there sees the module's groupings and typedefs like anything else of the module does.
+func (f *factorizer) toSubmodule2() {
+	n := len(f.sub)
+	cut := n
+	for cut > 0 && (dataKid(f.sub[cut-1]) || f.sub[cut-1].kw == "grouping") && f.r.Intn(3) != 0 {
+		cut--
+	}
+	if cut == 0 {
+		cut = 1 // something stays in the first submodule
+	}
+	if cut >= n {
+		return
+	}
+	f.sub2 = append(f.sub2, f.sub[cut:]...)
+	f.sub = f.sub[:cut]
+	f.step("nested-include")
+}
+
 func (f *factorizer) decoys() {
 	ss := f.sites()
 	for i := 0; i < 2; i++ {
@@ -887,22 +919,53 @@ func (f *factorizer) texts() map[string]string {
 		b.WriteString("  include sub;\n")
 	}
 	b.WriteString("  revision 2020-01-01;\n  feature off1;\n  typedef c01lr { type leafref { path \"../rid\"; } }\n")
+	qualify := f.r.Intn(3) == 0
+	if qualify {
+		f.step("augment-paths-with-own-prefix")
+	}
 	for _, t := range f.top {
-		t.render(&b, "  ")
+		t.renderIn(&b, "  ", "m", qualify)
 	}
 	b.WriteString("}\n")
 	out := map[string]string{"m": b.String()}
 	if len(f.sub) > 0 {
+		// the prefix a submodule gives its module is the submodule's choice
+		subPrefix := []string{"m", "sp"}[f.r.Intn(2)]
+		if subPrefix != "m" {
+			f.step("belongs-to-prefix-differs")
+		}
 		var sb strings.Builder
-		sb.WriteString("submodule sub {\n  belongs-to m { prefix m; }\n")
+		fmt.Fprintf(&sb, "submodule sub {\n  belongs-to m { prefix %s; }\n", subPrefix)
+		c01impPrefix = []string{"imp", "ip"}[f.r.Intn(2)]
+		defer func() { c01impPrefix = "imp" }()
 		if len(f.imp) > 0 {
-			sb.WriteString("  import imp { prefix imp; }\n")
+			fmt.Fprintf(&sb, "  import imp { prefix %s; }\n", c01impPrefix)
+			if c01impPrefix != "imp" {
+				f.step("submodule-imports-with-another-prefix")
+			}
+		}
+		if len(f.sub2) > 0 {
+			sb.WriteString("  include sub2;\n")
 		}
 		for _, t := range f.sub {
-			t.render(&sb, "  ")
+			t.renderIn(&sb, "  ", subPrefix, qualify)
 		}
 		sb.WriteString("}\n")
 		out["sub"] = sb.String()
+		if len(f.sub2) > 0 {
+			sub2Prefix := []string{"m", "s2p"}[f.r.Intn(2)]
+			var s2 strings.Builder
+			fmt.Fprintf(&s2, "submodule sub2 {\n  belongs-to m { prefix %s; }\n", sub2Prefix)
+			c01impPrefix = []string{"imp", "i2"}[f.r.Intn(2)]
+			if len(f.imp) > 0 {
+				fmt.Fprintf(&s2, "  import imp { prefix %s; }\n", c01impPrefix)
+			}
+			for _, t := range f.sub2 {
+				t.renderIn(&s2, "  ", sub2Prefix, qualify)
+			}
+			s2.WriteString("}\n")
+			out["sub2"] = s2.String()
+		}
 	}
 	if len(f.imp) > 0 {
 		var ib strings.Builder
@@ -1112,6 +1175,8 @@ func (p c01) Run(c *core.Ctx, idx int) {
 				case 4:
 					if len(f.sub) == 0 || r.Intn(2) == 0 {
 						f.toSubmodule()
+					} else if len(f.sub) > 0 {
+						f.toSubmodule2()
 					}
 				default:
 					if !f.useFeat {
@@ -1138,6 +1203,7 @@ func (p c01) Run(c *core.Ctx, idx int) {
 		}
 		opScan(f.top, false, false)
 		opScan(f.sub, false, false)
+		opScan(f.sub2, false, false)
 		opScan(f.imp, false, false)
 		mods := f.texts()
 		var steps []string
@@ -1151,7 +1217,7 @@ func (p c01) Run(c *core.Ctx, idx int) {
 			c.Count("step_" + s)
 		}
 		all := ""
-		for _, n := range []string{"m", "sub", "imp"} {
+		for _, n := range []string{"m", "sub", "sub2", "imp"} {
 			if t, ok := mods[n]; ok {
 				all += "--- " + n + " ---\n" + t
 			}
